@@ -316,7 +316,7 @@ def summarize(stderr):
     s = stderr.strip().split('\n')
     return (s[0] if s and s[0] else 'no diagnostic')[:300]
 
-ANOMALY = ('CRASH', 'TIMEOUT', 'LATE-MISMATCH', 'INPUT-MODIFIED', 'NULLPACKET', 'UNKNOWN-OP', 'SKIPPED', 'OOB')
+ANOMALY = ('CRASH', 'TIMEOUT', 'NOPAYLOAD', 'LATE-MISMATCH', 'INPUT-MODIFIED', 'NULLPACKET', 'UNKNOWN-OP', 'SKIPPED', 'OOB')
 
 def anomalies(lines):
     return [l for l in lines if l.startswith(ANOMALY)]
